@@ -869,17 +869,16 @@ Hypothesis H_inj : forall a b, H a = H b -> a = b.
 Notation run := (grun n t skip H toolong byz).
 
 Theorem agreement : forall es p q tg v v',
-  In (p, tg, v) (glog (run es)) -> In (q, tg, v') (glog (run es)) ->
-  ~ retrieved (gp (run es) p) tg -> ~ retrieved (gp (run es) q) tg -> v = v'.
-Proof. intros. apply H_inj. eapply agreement_digest; eauto. Qed.
+  In (p, tg, v) (glog (run es)) -> In (q, tg, v') (glog (run es)) -> v = v'.
+Proof. intros. apply H_inj. eapply agreement_digest_full; eauto. Qed.
 
 Theorem integrity : forall es p id j s v,
-  In (p, (id, j, s), v) (glog (run es)) -> ~ retrieved (gp (run es) p) (id, j, s) -> byz j = false ->
+  In (p, (id, j, s), v) (glog (run es)) -> byz j = false ->
   exists es1 coin es2 dst, es = es1 ++ EBcast j v coin :: es2 /\
     In (dst, Msg id j s 1 v) (snd (broadcast n j (gp (run es1) j) v coin)).
 Proof.
-  intros es p id j s v I N Hj.
-  destruct (integrity_digest n t skip H toolong byz n_gt_3t t_nonneg B B_small B_byz H_nonzero es p id j s v I N Hj)
+  intros es p id j s v I Hj.
+  destruct (integrity_digest_full n t skip H toolong byz n_gt_3t t_nonneg B B_small B_byz H_nonzero es p id j s v I Hj)
     as (e & m & Im & Tm & Am & Pm).
   apply H_inj in Pm.
   destruct (rsend_only_by_broadcast n t skip H toolong byz es j e m Im Am) as (es1 & v0 & coin & es2 & E & _ & J).
@@ -888,6 +887,15 @@ Proof.
   subst m. assert (v0 = v).
   { unfold broadcast in J. cbn in J. apply in_to_all in J. inversion J. reflexivity. }
   subst v0. exists es1, coin, es2, e. auto.
+Qed.
+
+(* the values handed out by the sender-specific call agree as well: they are Deliver deliveries of the same party *)
+Theorem agreement_deliverfrom : forall es p q c i v v' s,
+  In (p, c, i, v) (gapi (run es)) -> In (q, (c, i, s), v') (glog (run es)) ->
+  exists s', In (p, (c, i, s'), v) (glog (run es)) /\ (s' = s -> v = v').
+Proof.
+  intros es p q c i v v' s I1 I2. destruct (deliverfrom_isolation_run n t skip H toolong byz es p c i v I1) as (s' & J).
+  exists s'. split; auto. intros ->. eapply agreement; eauto.
 Qed.
 End Final.
 
